@@ -299,6 +299,25 @@ Theorem nested_walk_any_sorted :
   /\ StronglySorted (fun p q => compare_path p q = Lt) (map fst (nested_listing ost inner target)).
 Proof. exact nested_walk_any_sorted_proof. Qed.
 
+(* ... and with it "each directory before its contents" for every target: whenever a path and a path
+   below it are both reported, the upper one comes first *)
+Theorem subdir_any_dir_first :
+  forall ds target cs c cbs e,
+  sd_wf ds -> walk_subdirs ds target = Some (cbs, e) ->
+  cs <> [] -> c <> [] -> Forall nosep (cs ++ c) ->
+  In (joinc cs) (map fst cbs) -> In (joinc (cs ++ c)) (map fst cbs) ->
+  exists pre post, map fst cbs = pre ++ joinc (cs ++ c) :: post /\ In (joinc cs) pre.
+Proof. exact subdir_any_dir_first_proof. Qed.
+
+Theorem nested_any_dir_first :
+  forall ost inner target cs c,
+  sd_wf inner -> no_linkname inner -> wf_name (st_path ost) -> st_is_dir ost = true ->
+  cs <> [] -> c <> [] -> Forall nosep (cs ++ c) ->
+  let P := map fst (nested_listing ost inner target) in
+  In (joinc cs) P -> In (joinc (cs ++ c)) P ->
+  exists pre post, P = pre ++ joinc (cs ++ c) :: post /\ In (joinc cs) pre.
+Proof. exact nested_any_dir_first_proof. Qed.
+
 (* the model components of the verdicts of kinds 0902/0905 and 0906 are these model functions *)
 Theorem nested_judge_model :
   forall ost zs target cbs err,
@@ -340,6 +359,8 @@ Print Assumptions nested_walk_spec.
 Print Assumptions nested_parent_first.
 Print Assumptions subdir_walk_any_sorted.
 Print Assumptions nested_walk_any_sorted.
+Print Assumptions subdir_any_dir_first.
+Print Assumptions nested_any_dir_first.
 Print Assumptions nested_judge_model.
 Print Assumptions subdir_walk_prefixed.
 Print Assumptions view_walk_sorted.
